@@ -74,8 +74,8 @@ ssize_t __wrap_getrandom(void *buf, size_t len, unsigned flags) {
     if (!g_src_active) { ok = 1; for (size_t i = 0; i < len; ++i) b.push_back((unsigned char)(0x11 * (i + 1) + g_src_calls)); }
     else if (g_src_pos < g_src.size()) {
         ok = g_src[g_src_pos].first; b = g_src[g_src_pos].second;
-        if (ok == 2 && !g_eintr_pending) { g_eintr_pending = true; errno = EINTR; return -1; }      // interrupted once, then served
-        g_eintr_pending = false; ++g_src_pos; if (ok == 2) ok = 1;
+        if ((ok == 2 || ok == 3) && !g_eintr_pending) { g_eintr_pending = true; errno = ok == 2 ? EINTR : EAGAIN; return -1; }      // interrupted / not ready once, then served
+        g_eintr_pending = false; ++g_src_pos; if (ok == 2 || ok == 3) ok = 1;
     }
     g_sys_ok = ok; g_sys_bytes = b; g_sys_bytes.resize(len, 0);
     if (!ok) { errno = ENOSYS; return -1; }
